@@ -26,21 +26,24 @@ Print Assumptions C12_without_mutex_refuted.
 
 (* the extension leaves the protocol as it is: its projection is the run of the model that is tied to the code *)
 Theorem C12_state_extension_projects : forall (St : Type) (apply : St -> nat -> St) locking e0 d0 sched,
-  fst (run_st St apply locking e0 d0 sched) = run locking e0 sched.
+  proto St (run_st St apply locking e0 d0 sched) = run locking e0 sched.
 Proof. exact run_st_projects. Qed.
 Print Assumptions C12_state_extension_projects.
 
-(* for every schedule the state is the committed batches applied one after another, in epoch order *)
+(* for every schedule the state is the committed batches applied one after another, in epoch order,
+   and the state each commit produced - whose (epoch, root hash) the call returns - is the state of
+   that serial application up to and including its batch *)
 Theorem C12_final_state_is_serial_application : forall (St : Type) (apply : St -> nat -> St) e0 d0 sched,
   let x := run_st St apply true e0 d0 sched in
-  fst (snd x) = fold_left apply (committed_tasks (fst (fst x))) d0 /\
-  log_ok e0 (w_log (fst (fst x))) (w_epoch (fst (fst x))).
+  x_d St x = fold_left apply (committed_tasks (x_w St x)) d0 /\
+  x_hist St x = serial_states St apply d0 (committed_tasks (x_w St x)) /\
+  log_ok e0 (w_log (x_w St x)) (w_epoch (x_w St x)).
 Proof. exact publishes_apply_in_epoch_order. Qed.
 Print Assumptions C12_final_state_is_serial_application.
 
 (* without the mutex an update is lost *)
 Theorem C12_without_mutex_update_lost :
   let x := run_st (list nat) (fun d i => d ++ [i]%nat) false 2 [] [0; 1; 0; 1; 0; 1]%nat in
-  committed_tasks (fst (fst x)) = [0; 1]%nat /\ fst (snd x) = [1]%nat.
+  committed_tasks (x_w _ x) = [0; 1]%nat /\ x_d _ x = [1]%nat.
 Proof. exact without_mutex_update_lost. Qed.
 Print Assumptions C12_without_mutex_update_lost.
